@@ -392,6 +392,9 @@ def write(m, ch, ch_atoms=None, variants=True, label_style=None, digit_after_bra
     nbr_written = {}
     tags = {}
     explicit_single = 6 if variants else 0
+    # how often an aromatic bond is spelled ':' (sometimes all of them: a reader that takes ':' for a single bond
+    # still kekulizes a ring in which only a few bonds are spelled out)
+    colon = ch.weighted([(8, 12), (1, 60), (1, 100)]) if any(a["arom"] for a in m.atoms) else 0
 
     def new_label():
         if not free_labels:
@@ -465,7 +468,7 @@ def write(m, ch, ch_atoms=None, variants=True, label_style=None, digit_after_bra
                 if w == "both" or (w == "open") == opening:
                     bc = "=" if o == 2 else "#"
             elif o == 1.5:
-                w = where_sym.setdefault(key, ch.pick(["none", "none", "none", "open", "close", "both"]))
+                w = where_sym.setdefault(key, ch.pick(["open", "close", "both"]) if ch.bool(max(colon, 50) if colon > 12 else 50) else "none")
                 if w == "both" or (w == "open" and opening) or (w == "close" and not opening):
                     bc = ":"
             elif mk:
@@ -532,7 +535,7 @@ def write(m, ch, ch_atoms=None, variants=True, label_style=None, digit_after_bra
                 elif o == 3:
                     bc = "#"
                 elif o == 1.5:
-                    bc = ":" if ch.bool(12) else ""
+                    bc = ":" if ch.bool(colon) else ""
                 elif mk:
                     bc = mk
                 elif both_arom:
